@@ -6,10 +6,10 @@
  "mode": "harness",
  "kind": "bounded",
  "bound": "one insertion into every AVL tree of height <= 3 (<= 7 nodes; all shapes, all unsigned 64-bit keys, every inserted key)",
- "cflags": ["-DH=3"],
- "unwindset": ["treeinsert.0:5", "treeinsert.1:6", "build.0:9"],
+ "cflags": ["-DH=3", "-DVERIF_OWN_XMALLOC"],
+ "unwindset": ["treeinsert.0:5", "treeinsert.1:6", "build.0:9", "insert_observed.0:9"],
  "timeout": 300, "mem_gb": 8,
- "tiers": {"thorough": {"cflags": ["-DH=4"], "unwindset": ["treeinsert.0:6", "treeinsert.1:7", "build.0:17"], "timeout": 1500,
+ "tiers": {"thorough": {"cflags": ["-DH=4", "-DVERIF_OWN_XMALLOC"], "unwindset": ["treeinsert.0:6", "treeinsert.1:7", "build.0:17", "insert_observed.0:17"], "timeout": 1500,
                         "bound": "one insertion into every AVL tree of height <= 4 (<= 15 nodes; all shapes, all unsigned 64-bit keys, every inserted key)"}},
  "expects": ["assertion_verif", "assertion_repo", "array_bounds"],
  "assumes": ["the global statement (insertion preserves the AVL/BST invariant for trees of ANY size) is checked only up to the stated height; the unbounded part is TREE.rot / TREE.balance",
@@ -35,6 +35,32 @@
 static struct treenode s1, s2, s3, s4, s5, s6, s7, s8, s9, s10, s11, s12, s13, s14, s15;
 static struct treenode *const nd[16] = {0, &s1, &s2, &s3, &s4, &s5, &s6, &s7, &s8, &s9, &s10, &s11, &s12, &s13, &s14, &s15};
 static void *t_root;
+
+#ifndef VERIF_REPLAY
+/*
+ * Workaround for a CBMC 6.11 defect (reproducer in the agent report): symex re-simplifies a propagated pointer
+ * expression that mentions an OLD SSA version of a pointer variable (here the path-stack entries
+ * a[i] = &n->child[key > n->key], whose index contains "n#k == &node") with the CURRENT value set of that variable;
+ * once `n` has been reassigned the comparison is folded to false and *a[i] reads the wrong child slot - every
+ * obligation of balance()/rot() then fails spuriously (and others might pass spuriously).  Keeping the value set of
+ * treeinsert's `n` after `n = xmalloc(sz)` a superset of all tree nodes makes that folding impossible; the returned
+ * pointer itself is always the fresh object (assume(fresh)).
+ */
+_Bool nondet_fresh(void);
+unsigned nondet_slot(void);
+void *
+xmalloc(size_t n)
+{
+	void *p = malloc(n);
+	_Bool fresh = nondet_fresh();
+	void *r;
+
+	__CPROVER_assume(p != 0);
+	r = fresh ? p : (void *)nd[nondet_slot() % 16];
+	__CPROVER_assume(fresh);
+	return r;
+}
+#endif
 
 /* what one in-order walk over a tree observes (ghost state of the contract) */
 struct obs {
